@@ -325,3 +325,101 @@ EXTERNALS_DEFAULT = {'random.random': ext_random, 'math.log': ext_log2, 'math.ce
 def make_engine_default(repo):
     from pyvc.engine import Engine
     return Engine(repo, FILE, classes=CLASSES, contracts=CONTRACTS_DEFAULT, consts=CONSTS, externals=EXTERNALS_DEFAULT)
+
+
+# ---------------------------------------------------------------------------------------------
+# unique_iter(src, key): exactly the first occurrence of each key, in input order.
+#   src = a finite sequence of opaque items item(0..n-1) (the same at every traversal); key(x) = x, or an opaque
+#   deterministic callable.  Ghost: outsrc[m] = input position of the m-th yielded item, outpos = its inverse,
+#   first[k] = input position of the first item with key k among those processed so far (-1: none).
+ValArr = z3.ArraySort(z3.IntSort(), Val)
+KeyIdx = z3.ArraySort(Val, z3.IntSort())
+SeenSet = HeapClass('SeenSet', 'set', k=VAL)
+
+
+def uq_setup(eng, st, variant=None):
+    st.ghost['out_n'] = z3.IntVal(0)
+    st.ghost['out_0'] = z3.Const('uq_out_init', ValArr)
+    st.ghost['outsrc'] = z3.Const('uq_outsrc_init', IntArr)
+    st.ghost['outpos'] = z3.Const('uq_outpos_init', IntArr)
+    st.ghost['first'] = z3.K(Val, z3.IntVal(-1))
+    src = SVal(z3.Const('arg_src', Val))
+    eng.stable_lists.add(src.t.get_id())
+    key = SNone() if variant == 'identity' else SVal(z3.Const('arg_key', Val))
+    return dict(src=src, key=key)
+
+
+def uq_key(c, x):
+    if c.eng.variant == 'identity':
+        return x
+    return c.eng.f_opaque_call(c.a('key'), x)
+
+
+def uq_item(c, j):
+    return c.eng.f_oseq_item(c.a('src'), j)
+
+
+def uq_requires(c):
+    if c.eng.variant == 'identity':
+        return []
+    k = c.a('key')
+    return [('key is a callable', z3.And(k != NONE, c.eng.f_callable(k)))]
+
+
+def uq_hint(c, event, data):
+    if event != 'yield':
+        return []
+    i, n = c.g('$iter_index'), c.g('out_n')
+    return [('ghost', 'outsrc', z3.Store(c.g('outsrc'), n, i)), ('ghost', 'outpos', z3.Store(c.g('outpos'), i, n)),
+            ('ghost', 'first', z3.Store(c.g('first'), c.L('k'), i))]
+
+
+def uq_facts(c, upto):
+    """the statement over the items at positions < upto"""
+    n, out, osrc, opos, first = c.g('out_n'), c.g('out_0'), c.g('outsrc'), c.g('outpos'), c.g('first')
+    m, m2, j, j2 = z3.Ints('m m2 j j2')
+    kv = z3.Const('kv', Val)
+    key = lambda jj: uq_key(c, uq_item(c, jj))  # noqa: E731
+    is_first = lambda jj: z3.Select(first, key(jj)) == jj  # noqa: E731
+    return [
+        ('first[k] is the position of the first processed item with key k', z3.And(
+            z3.ForAll([kv], z3.And(z3.Select(first, kv) >= -1, z3.Select(first, kv) < upto,
+                                   z3.Implies(z3.Select(first, kv) >= 0, key(z3.Select(first, kv)) == kv))),
+            z3.ForAll([j], z3.Implies(z3.And(0 <= j, j < upto), z3.And(z3.Select(first, key(j)) >= 0, z3.Select(first, key(j)) <= j))))),
+        ('every yielded item is the first occurrence of its key, at an increasing input position', z3.And(n >= 0, z3.ForAll([m], z3.Implies(
+            z3.And(0 <= m, m < n), z3.And(0 <= z3.Select(osrc, m), z3.Select(osrc, m) < upto,
+                                          z3.Select(out, m) == uq_item(c, z3.Select(osrc, m)), is_first(z3.Select(osrc, m)),
+                                          z3.Select(opos, z3.Select(osrc, m)) == m))),
+            z3.ForAll([m, m2], z3.Implies(z3.And(0 <= m, m < m2, m2 < n), z3.Select(osrc, m) < z3.Select(osrc, m2))))),
+        ('every first occurrence has been yielded', z3.ForAll([j], z3.Implies(
+            z3.And(0 <= j, j < upto, is_first(j)),
+            z3.And(0 <= z3.Select(opos, j), z3.Select(opos, j) < n, z3.Select(osrc, z3.Select(opos, j)) == j)))),
+    ]
+
+
+def uq_inv(c):
+    seen = c.Lsv('seen')
+    kv = z3.Const('kv', Val)
+    sdom = z3.Select(c.arr(SeenSet, 'dom'), seen.t)
+    return [('seen is the set allocated by this call', z3.And(seen.t >= z3.Int('alloc0'), seen.t == c.x['loop_entry'].locals['seen'].t)),
+            ('seen = the keys of the items processed so far', z3.ForAll([kv], z3.Select(sdom, kv) == (z3.Select(c.g('first'), kv) >= 0)))
+            ] + uq_facts(c, c.x['i'])
+
+
+def uq_ensures(c):
+    return uq_facts(c, c.eng.f_oseq_len(c.a('src')))
+
+
+unique_iter = Contract('unique_iter', setup=uq_setup, requires=uq_requires, ensures=uq_ensures,
+                       modifies=lambda c: [('SeenSet', 'dom'), ('SeenSet', 'size')],
+                       loops={0: Loop(uq_inv, heap=[('SeenSet', 'dom'), ('SeenSet', 'size')], ghost=['outsrc', 'outpos', 'first'])},
+                       local_types=dict(seen=REF(SeenSet)), generator=True, hints=uq_hint, variants=['identity', 'callable'])
+is_iterable_c = Contract('is_iterable', inline=True)
+CONTRACTS_UNIQUE = {'unique_iter': unique_iter, 'is_iterable': is_iterable_c}
+
+
+def make_engine_unique(repo):
+    from pyvc.engine import Engine
+    eng = Engine(repo, FILE, classes={}, contracts=CONTRACTS_UNIQUE, consts=CONSTS)
+    eng.register_class(SeenSet)
+    return eng
